@@ -1,6 +1,6 @@
 """Shared by the program-level properties (C01, C02, C09-C13, C16): generate sources, run the
 implementation, compare with the model (correspondence) and with Sem.v (specification oracle)."""
-import re
+import os, re
 import vlib, runcorr, genwf, nlast
 
 
@@ -615,3 +615,36 @@ def special_values_family():
             out.append("functie f(x) { 3 %s x } f(%s)" % (op, a))
             out.append("functie f(x, y) { x %s y } f(%s, %s)" % (op, a, a))
     return out
+
+
+def run_production(ctx, log, sources, budget=200000):
+    """the command-line program built WITHOUT the observation feature prints, for every program, exactly what the
+    observed build computes: the printed output, then the value as it is displayed - or the same kind of error.
+    (The hooks duplicate a few lines - print!, float spelling, deallocation: this ties the duplicates together.)"""
+    os.makedirs(os.path.join(vlib.WORK, "cases"), exist_ok=True)
+    rc, out = vlib.build_production()
+    if rc != 0:
+        ctx.broken.append(dict(kind="build-production", what=out[-1500:]))
+        return
+    shown = vlib.nlh("show", ["%d %s" % (budget, vlib.hexs(s)) for s in sources], tag=ctx.prop.lower() + "show", timeout=900)
+    keep = [(s, o) for s, o in zip(sources, shown) if o.startswith("OK ") or o.startswith("ERR ")]
+    prod = vlib.run_production([s for s, _ in keep])
+    bad = 0
+    for (s, o), (prc, pout, perr) in zip(keep, prod):
+        ctx.seen(("production", s))
+        ctx.count("production-binary")
+        parts = o.split(" | ")
+        outp = decode_cp(parts[1][4:]) if len(parts) > 1 and parts[1].startswith("OUT ") else ""
+        if o.startswith("OK "):
+            want = (outp + decode_cp(parts[0][3:]) + "\n").encode("utf-8")
+            ok = prc == 0 and pout == want and perr.strip() == ""
+            exp = "stdout %r" % want[:300]
+        else:
+            kind = parts[0][4:]
+            ok = prc == 0 and pout == outp.encode("utf-8") and perr.startswith(kind + "Error(")
+            exp = "stdout %r, stderr %sError(...)" % (outp.encode("utf-8")[:200], kind)
+        if not ok:
+            bad += 1
+            ctx.violate("the command-line program (built without the observation hooks) does not print what the observed build computes", source=s,
+                        observed="exit %r stdout %r stderr %r" % (prc, pout[:300], perr[:200]), expected=exp)
+    log("production binary: %d programs, %d differ from the observed build" % (len(keep), bad))
